@@ -69,6 +69,15 @@ def fam_history(seed, n, all_statuses=True):
             sc["ops"] += [["wait"], ["pid"], ["exit_status"], rng.choice([["terminate"], ["kill"], ["send_signal", 10]]),
                           ["poll"]]
         out.append(sc)
+    # job control: a stopped child is alive -- no status may be reported for it
+    for j, ops in enumerate([
+        [["send_signal", 19], ["poll"], ["pid"], ["wait_timeout", 5 * MS], ["send_signal", 18], ["poll"], ["kill"], ["wait"]],
+        [["send_signal", 20], ["delay", 3 * MS], ["wait_timeout", 0], ["poll"], ["terminate"], ["send_signal", 18], ["wait"], ["pid"]],
+        [["poll"], ["send_signal", 19], ["send_signal", 18], ["send_signal", 19], ["poll"], ["exit_status"], ["kill"], ["wait"]],
+    ]):
+        for at in (None, 50 * MS):
+            out.append({"id": "h-stop%d%s" % (j, "" if at is None else "-exit"), "exit": {"k": "exited", "v": 42, "at": at},
+                        "ops": ops, "drop": True})
     return out
 
 
